@@ -246,6 +246,161 @@ theorem interrupt_safe (inv : Inv) (env : Env) (src dst : String) (hd : dstOf in
         simp only [c3, c4, c5, if_true, if_false, Bool.false_eq_true, List.cons_append, List.nil_append, List.append_nil] at ht ⊢ <;>
         (rcases k with _ | _ | _ | _ | _ | _ | _ | _ | _ | _ | k <;> simp [interruptOps, exec, execOp, h0, hne, hne'] at ht ⊢ <;> first | exact ht.symm | skip)
 
+/-! ### the whole run: several files, one after the other -/
+
+theorem exec_append (fs : FS) (a b : List Op) : exec fs (a ++ b) = exec (exec fs a) b := by
+  simp [exec, List.foldl_append]
+
+theorem execOp_untouched (fs : FS) (op : Op) (p : String) (h : p ∉ touches op) : execOp fs op p = fs p := by
+  cases op with
+  | openW q => simp [touches] at h; simp [execOp, h]
+  | close q c => cases c <;> simp [touches] at h <;> simp [execOp, h]
+  | unlink q => simp [touches] at h; simp [execOp, h]
+  | openR q => rfl
+  | sigOn q => rfl
+  | sigOff => rfl
+  | exit c => rfl
+
+theorem exec_untouched (ops : List Op) : ∀ (fs : FS) (p : String), (∀ op ∈ ops, p ∉ touches op) → exec fs ops p = fs p := by
+  induction ops with
+  | nil => intro fs p _; rfl
+  | cons o os ih =>
+    intro fs p h
+    simp only [exec, List.foldl_cons]
+    have := ih (execOp fs o) p (fun op hop => h op (List.mem_cons_of_mem _ hop))
+    simp only [exec] at this
+    rw [this]
+    exact execOp_untouched fs o p (h o (List.mem_cons_self ..))
+
+/-- the operations for a source file change nothing but that file and its destination -/
+theorem fileOps_touches' (inv : Inv) (env : Env) (src : String) :
+    ∀ op ∈ (fileOps inv env src).1, ∀ p ∈ touches op, p = src ∨ dstOf inv src = some p := by
+  unfold fileOps
+  by_cases c1 : (inv.mode == Mode.test || inv.toStdout) = true
+  · simp [c1, touches]
+  · simp only [c1]
+    cases hd : dstOf inv src with
+    | none => simp
+    | some dst =>
+      simp only
+      by_cases c2 : (env.dstExists dst && !inv.force) = true
+      · simp [c2, touches]
+      · simp only [c2]
+        by_cases c3 : env.dstExists dst = true <;> by_cases c4 : env.codecOk src = true <;> by_cases c5 : rmActive inv = true <;>
+          simp [c3, c4, c5, touches]
+
+theorem fileOps_touches (inv : Inv) (env : Env) (src : String) (op : Op) (hop : op ∈ (fileOps inv env src).1) (p : String) (hp : p ∈ touches op) :
+    p = src ∨ dstOf inv src = some p := fileOps_touches' inv env src op hop p hp
+
+/-- sources and destinations of one run do not collide: no destination is also a source, two sources have different destinations -/
+def Separate (inv : Inv) (files : List String) : Prop :=
+  ∀ f ∈ files, ∀ d, dstOf inv f = some d → (∀ g ∈ files, d ≠ g) ∧ (∀ g ∈ files, g ≠ f → dstOf inv g ≠ some d)
+
+theorem allOps_cons (inv : Inv) (env : Env) (f : String) (fs : List String) :
+    (allOps inv env (f :: fs)).1 = (if env.srcExists f then (fileOps inv env f).1 else []) ++ (allOps inv env fs).1 := by
+  simp only [allOps]
+  split <;> rfl
+
+theorem allOps_touches (inv : Inv) (env : Env) : ∀ (files : List String) (op : Op), op ∈ (allOps inv env files).1 → ∀ p ∈ touches op,
+    ∃ g ∈ files, p = g ∨ dstOf inv g = some p := by
+  intro files
+  induction files with
+  | nil => intro op hop; simp [allOps] at hop
+  | cons f fs ih =>
+    intro op hop p hp
+    rw [allOps_cons] at hop
+    rcases List.mem_append.mp hop with h | h
+    · by_cases hs : env.srcExists f = true
+      · simp only [hs, if_true] at h
+        exact ⟨f, List.mem_cons_self .., fileOps_touches inv env f op h p hp⟩
+      · simp [hs] at h
+    · obtain ⟨g, hg, hh⟩ := ih op h p hp
+      exact ⟨g, List.mem_cons_of_mem _ hg, hh⟩
+
+/-- **never_lose_data**: for every invocation whose sources and destinations do not collide, every environment, and EVERY prefix of
+the whole sequence of operations (every kill point of the run, whichever file is being processed): each source that existed is
+intact, or its destination is complete. -/
+theorem program_never_loses (inv : Inv) (env : Env) : ∀ (files : List String) (fs0 : FS), files.Nodup → Separate inv files →
+    (∀ f ∈ files, fs0 f = .old) → ∀ (k : Nat) (f : String), f ∈ files → env.srcExists f = true → ∀ d, dstOf inv f = some d →
+    Recoverable (exec fs0 ((allOps inv env files).1.take k)) f d := by
+  intro files
+  induction files with
+  | nil => intro fs0 _ _ _ k f hf; cases hf
+  | cons f0 rest ih =>
+    intro fs0 hnd hsep hold k f hf hex d hd
+    have hnd' := List.nodup_cons.mp hnd
+    rw [allOps_cons, List.take_append, exec_append]
+    -- operations of the first file
+    let o1 := if env.srcExists f0 then (fileOps inv env f0).1 else []
+    have ho1 : ∀ op ∈ o1.take k, ∀ p ∈ touches op, p = f0 ∨ dstOf inv f0 = some p := by
+      intro op hop p hp
+      have hop' : op ∈ o1 := List.mem_of_mem_take hop
+      by_cases hs : env.srcExists f0 = true
+      · simp only [o1, hs, if_true] at hop'
+        exact fileOps_touches inv env f0 op hop' p hp
+      · simp [o1, hs] at hop'
+    rcases List.mem_cons.mp hf with rfl | hfr
+    · -- the file in question is the first one: its own operations keep it recoverable, the later files cannot touch it
+      have h1 : Recoverable (exec fs0 (o1.take k)) f d := by
+        simp only [o1, hex, if_true]
+        exact file_never_loses inv env f d hd (fun h => (hsep f (List.mem_cons_self ..) d hd).1 f (List.mem_cons_self ..) h) fs0 (hold f (List.mem_cons_self ..)) k
+      have hlater : ∀ op ∈ ((allOps inv env rest).1.take (k - o1.length)), f ∉ touches op ∧ d ∉ touches op := by
+        intro op hop
+        have hop' := List.mem_of_mem_take hop
+        constructor
+        · intro hp
+          obtain ⟨g, hg, hh⟩ := allOps_touches inv env rest op hop' f hp
+          rcases hh with rfl | hh
+          · exact hnd'.1 hg
+          · exact (hsep g (List.mem_cons_of_mem _ hg) f hh).1 f (List.mem_cons_self ..) rfl
+        · intro hp
+          obtain ⟨g, hg, hh⟩ := allOps_touches inv env rest op hop' d hp
+          rcases hh with rfl | hh
+          · exact (hsep f (List.mem_cons_self ..) d hd).1 d (List.mem_cons_of_mem _ hg) rfl
+          · have hgf : g ≠ f := fun h => hnd'.1 (h ▸ hg)
+            exact (hsep f (List.mem_cons_self ..) d hd).2 g (List.mem_cons_of_mem _ hg) hgf hh
+      unfold Recoverable at h1 ⊢
+      rw [exec_untouched _ _ f (fun op hop => (hlater op hop).1), exec_untouched _ _ d (fun op hop => (hlater op hop).2)]
+      exact h1
+    · -- the file comes later: the first file's operations leave every later source untouched
+      have hkeep : ∀ g ∈ rest, exec fs0 (o1.take k) g = .old := by
+        intro g hg
+        rw [exec_untouched _ _ g]
+        · exact hold g (List.mem_cons_of_mem _ hg)
+        · intro op hop hp
+          rcases ho1 op hop g hp with rfl | hh
+          · exact hnd'.1 hg
+          · exact (hsep f0 (List.mem_cons_self ..) g hh).1 g (List.mem_cons_of_mem _ hg) rfl
+      have hsep' : Separate inv rest := by
+        intro g hg d' hd'
+        obtain ⟨a, b⟩ := hsep g (List.mem_cons_of_mem _ hg) d' hd'
+        exact ⟨fun x hx => a x (List.mem_cons_of_mem _ hx), fun x hx hne => b x (List.mem_cons_of_mem _ hx) hne⟩
+      exact ih (exec fs0 (o1.take k)) hnd'.2 hsep' hkeep (k - o1.length) f hfr hex d hd
+
+/-- the same for the complete program (the final `exit` changes no file) -/
+theorem never_lose_data (inv : Inv) (env : Env) (fs0 : FS) (hnd : inv.files.Nodup) (hsep : Separate inv inv.files)
+    (hold : ∀ f ∈ inv.files, fs0 f = .old) (k : Nat) (f : String) (hf : f ∈ inv.files) (hex : env.srcExists f = true)
+    (d : String) (hd : dstOf inv f = some d) :
+    Recoverable (exec fs0 ((program inv env).take k)) f d := by
+  unfold program
+  split
+  · -- refused before anything is touched
+    rcases k with _ | k <;> simp [exec, execOp, Recoverable, hold f hf]
+  · simp only
+    rw [List.take_append, exec_append]
+    have := program_never_loses inv env inv.files fs0 hnd hsep hold k f hf hex d hd
+    unfold Recoverable at this ⊢
+    rw [exec_untouched _ _ f, exec_untouched _ _ d]
+    · exact this
+    · intro op hop; have := List.mem_of_mem_take hop; simp at this; subst this; simp [touches]
+    · intro op hop; have := List.mem_of_mem_take hop; simp at this; subst this; simp [touches]
+
+example : Separate { mode := .compress, files := ["a", "b"] } ["a", "b"] := by
+  intro f hf d hd
+  simp [dstOf] at hd
+  simp at hf
+  rcases hf with rfl | rfl <;> subst hd <;> simp [dstOf] <;> decide
+
 example : (program { mode := .compress, files := ["a"], rm := true } { dstExists := fun _ => false, srcExists := fun _ => true, codecOk := fun _ => true }) =
     [.openR "a", .openW "a.zst", .sigOn "a.zst", .sigOff, .close "a.zst" true, .close "a" false, .unlink "a", .exit 0] := by decide
 
